@@ -223,6 +223,41 @@ func allPipelines(s *sharedInputs) []pipeline {
 			return append(append([]byte(nil), b...), fmt.Sprint(err1, err2, err3, err4, err5)...)
 		}})
 	}
+	// the error paths: every pipeline fails in its own way (an unrecognised verb of its own, too many stops, a selector
+	// inside the stop range, a call that breaks the Encoder's protocol, an input the decoder rejects) and reports its own
+	// failure, whatever the others are doing
+	for vi, verb := range []string{"x", "&", "Y", "\x7f", "e"} {
+		vi, verb := vi, verb
+		ps = append(ps, pipeline{fmt.Sprintf("error-paths/%d", vi), func(s *sharedInputs, gate func()) []byte {
+			var out []byte
+			for rep := 0; rep < 4; rep++ {
+				var e encode.Encoder
+				g := &generate.Generator{}
+				g.SetDestination(newGated(&e, gate))
+				gate()
+				err1 := g.SetPathData(verb+"1 2", 0)
+				err2 := g.SetPathData("M0 0"+verb+"1 2z", 0)
+				many := make([]generate.GradientStop, 59+vi)
+				for k := range many {
+					many[k] = generate.GradientStop{Offset: float32(k) / 64, Color: color.RGBA{uint8(k), 0, 0, 0xff}}
+				}
+				err3 := g.SetLinearGradient(0, 0, 1, 1, generate.GradientSpreadPad, many)
+				e.SetCSel(uint8(10 + vi%3))
+				err4 := g.SetLinearGradient(0, 0, 1, 1, generate.GradientSpreadPad, many[:4])
+				_, err5 := e.Bytes()
+				var e2 encode.Encoder
+				[]func(){func() { e2.AbsLineTo(1, 2) }, func() { e2.ClosePathEndPath() }, func() { e2.StartPath(0, 0, 0); e2.SetCSel(1) },
+					func() { e2.SetCReg(3, true, ivg.RGBAColor(color.RGBA{})) }, func() { e2.StartPath(0, 0, 0); e2.StartPath(0, 1, 1) }}[vi]()
+				_, err6 := e2.Bytes()
+				bad := append([]byte(nil), s.graphics[rep%len(s.graphics)]...)
+				bad = append(bad[:len(bad)/2+vi], []byte{0xff, 0xe0 + byte(vi), 0x07}...)
+				err7 := decode.Decode(newGated(&Recorder{}, gate), bad)
+				_, err8 := decode.Disassemble(bad)
+				out = append(out, fmt.Sprint(err1, "|", err2, "|", err3, "|", err4, "|", err5, "|", err6, "|", err7, "|", err8, "\n")...)
+			}
+			return out
+		}})
+	}
 	ps = append(ps,
 		pipeline{"generator-encoder", func(s *sharedInputs, gate func()) []byte {
 			var e encode.Encoder
